@@ -24,6 +24,14 @@ def run(ctx):
                        "ops": [{"op": "create", "at": "C", "h": ["md5"], "now": "2026-03-01 12:00:01"}, {"op": "create", "at": "", "h": ["md5"], "now": "2026-03-01 12:00:02", "i": [pat]},
                                {"op": "create", "at": "", "h": ["sha1"], "now": "2026-03-01 12:00:03", "sf": ["C"]}, {"op": "create", "at": "", "h": ["xxh64"], "now": "2026-03-01 12:00:04", "sf": ["C/x", "top.txt"]},
                                {"op": "verify", "at": ""}]})
+    # a pattern that the history already records, given again: the recorded order stays (the negation behind it keeps
+    # re-including its file), in the root and in a nested history; and neighbours of ignored entries in one folder
+    for again in (["*.log"], ["*.log", "*.tmp"], ["!keep.log", "*.log"]):
+        scs.insert(0, {"profile": "c02-pattern-again", "root": "root", "tree": {"keep.log": "k", "a.log": "a", "b.txt": "b", "s/keep.log": "sk", "s/z.log": "z", "r1.tmp": "1", "r2.tmp": "2", "r3.txt": "3"},
+                       "ops": [{"op": "create", "at": "s", "h": ["md5"], "now": "2026-03-01 12:00:01", "i": ["*.log", "!keep.log"]},
+                               {"op": "create", "at": "", "h": ["md5"], "now": "2026-03-01 12:00:02", "i": ["*.log", "!keep.log", "*.tmp"]},
+                               {"op": "create", "at": "", "h": ["md5"], "now": "2026-03-01 12:00:03", "i": again}, {"op": "create", "at": "s", "h": ["md5"], "now": "2026-03-01 12:00:04", "i": again},
+                               {"op": "create", "at": "", "h": ["sha1"], "now": "2026-03-01 12:00:05"}, {"op": "verify", "at": ""}]})
     return _scn.run_scn(ctx, scs, M.m_c02, extra_fails=largefiles.extra(ctx), witness_ids=("D5a", "D10", "D4b"),
         assumptions=["trees of regular files and directories (no symbolic links); names are valid UTF-8 without control characters",
                      "'excluded' is defined by pathspec gitwildmatch applied to the path relative to the command root"])
